@@ -186,6 +186,18 @@ def r1_algebra(program, rep):
         oksrc = a_[0] == "attr" and a_[2] == "sources" and \
             a_[1][0] == "item" and a_[1][1] == _P(formals(fn)[1]) and \
             a_[1][2][0] == "elem" and not T_.all_facts(ups[0][0])
+    if not oksrc and SRC is not None:
+        # ... or a set comprehension over every member's sources
+        ps_ = plain(SRC)
+        MEM = ("item", _P(formals(fn)[1]), ("elem", _P(formals(fn)[2])))
+        MSRC = ("attr", MEM, "sources")
+        if ps_[0] == "setcomp" and ps_[1] == ("elem", MSRC) and \
+                len(ps_[2]) == 2 and not ps_[2][0][1] and \
+                ps_[2][1] == (MSRC, ()):
+            it0 = ps_[2][0][0]
+            oksrc = it0 == _P(formals(fn)[2]) or (
+                it0[0] == "listcomp" and it0[1] == MEM and
+                it0[2] == ((_P(formals(fn)[2]), ()),))
     rep.check(oksrc, "C04-R1", inst, "the merged entry's sources are the "
               "union of its members' sources", construct="merge sources",
               node=fn)
@@ -1335,6 +1347,11 @@ def _apply_sequence(rep, ap, T, L, NEW, TAB, ENT, IDX):
             return False
         it, conds = t[2][0]
         rng = ("call", ("global", "range"))
+        if it[:2] != rng:
+            # survivors picked some other way than by position in a range
+            # of indices (e.g. enumerate over a slice of the table)
+            raise AnalysisError("apply: the surviving entries are collected "
+                                "in a form that is not analysed")
         ok_r = it[:2] == rng and not it[3] and (
             (len(it[2]) == 2 and it[2][0] in lo and it[2][1] == hi) or
             (len(it[2]) == 1 and ("const", 0) in lo and it[2][0] == hi))
